@@ -261,6 +261,40 @@ def rule45_alloc(ctx, fl, v):
     ctx.floor('C10.5', 8)
 
 
+def rule2_levels(ctx, v):
+    """the node allocated for the last level is a leaf (16 cleared entries), the ones above are internal nodes"""
+    f = ctx.need_fn(v, 'myth_tls_tree_set')
+    leafs = [c for c in call_sites(f, 'myth_tls_tree_node_alloc_leaf') if f.in_loop(c)]
+    nodes = [c for c in call_sites(f, 'myth_tls_tree_node_alloc_node') if f.in_loop(c)]
+    ctx.ob('C10.2', 'myth_tls_tree_set: missing children are allocated inside the level walk', len(leafs) == 1 and len(nodes) == 1,
+           'one leaf and one internal allocation site in the loop', loc=f.loc)
+    if len(leafs) != 1 or len(nodes) != 1:
+        return
+    lp = lib.loop_containing(f, leafs[0])
+    bound = None
+    ctr = None
+    for ic in f.order:
+        if ic.op == 'icmp' and ic.pred == 'slt' and ic.block.id == lp['header'] and const_int(ic.ops[1]) is not None:
+            bound, ctr = const_int(ic.ops[1]), f.strip(ic.ops[0])
+    ok = False
+    why = 'no test of the level counter against depth - 1'
+    for ic in f.order:
+        if ic.op == 'icmp' and isinstance(ic.ops[0], str) and f.strip(ic.ops[0]) == ctr and ic.block.id in lp['blocks'] and ic.block.id != lp['header']:
+            c = const_int(ic.ops[1])
+            last_on_false = (ic.pred == 'slt' and c == bound - 1) or (ic.pred == 'sle' and c == bound - 2) or (ic.pred == 'ne' and c == bound - 1)
+            last_on_true = (ic.pred in ('sge',) and c == bound - 1) or (ic.pred == 'sgt' and c == bound - 2) or (ic.pred == 'eq' and c == bound - 1)
+            for br in f.users(ic.id):
+                if br.op == 'br' and 'cond' in br.d and (last_on_false or last_on_true):
+                    last, upper = (br.d['f'], br.d['t']) if last_on_false else (br.d['t'], br.d['f'])
+                    if f.edge_dominates(br.block.id, last, leafs[0]) and f.edge_dominates(br.block.id, upper, nodes[0]):
+                        ok, why = True, ''
+                    else:
+                        why = 'leaf / internal allocation sit on the wrong sides of the level test'
+    ctx.ob('C10.2', 'myth_tls_tree_set: last level gets a leaf, upper levels internal nodes', ok and bound is not None,
+           'an internal node used as a leaf has only 4 of its 16 slots cleared: the other 12 read back whatever the memory held', loc=leafs[0].loc,
+           detail=why)
+
+
 def rule6_reuse(ctx, v):
     ctx.doc('C10.6', 'a key index handed out again after a delete must not expose, in a thread that lived across the delete, the value '
             'that thread stored under the deleted key ("a thread that never stored reads NULL"): myth_tls_tree_get validates the slot '
@@ -302,10 +336,13 @@ def run(ctx):
         rule3_follows(ctx, fl)
         rule45_alloc(ctx, fl, v)
         rule6_reuse(ctx, v)
+        rule2_levels(ctx, v)
 
 
 TLS = 'src/myth_tls_func.h'
 MUTANTS = [
+    {'name': 'tree_set allocates an internal node for the leaf level (sweep M0599)', 'expect': 'C10.2',
+     'edits': [(TLS, "      if (i < myth_tls_tree_depth - 1) {\n\tc = myth_tls_tree_node_alloc_node(t);", "      if (!(i < myth_tls_tree_depth - 1)) {\n\tc = myth_tls_tree_node_alloc_node(t);")]},
     {'name': 'set accepts idx == n_keys', 'expect': 'C10.1',
      'edits': [(TLS, "  if (idx < 0 || idx >= myth_tls_n_keys) {\n    return EINVAL;\n  }", "  if (idx < 0 || idx > myth_tls_n_keys) {\n    return EINVAL;\n  }")]},
     {'name': 'get accepts a smaller range than set (seed C10/m3)', 'expect': 'C10.1',
